@@ -32,7 +32,9 @@ def handle (st : DState) (req : Sexp) : Except String (DState × Sexp) :=
   | .list (.atom "infer" :: k :: vs) => do
       .ok (st, sexpOfTy (infer (← natOf k) (← vs.mapM valOf)))
   | .list [.atom "conforms", t, v] => do
-      .ok (st, sexpOfBool (conforms st.sub (← tyOf t) (← valOf v)))
+      .ok (st, sexpOfBool (conforms st.sub true (← tyOf t) (← valOf v)))
+  | .list [.atom "conformsT", t, v] => do
+      .ok (st, sexpOfBool (conforms st.sub false (← tyOf t) (← valOf v)))
   | .list [.atom "eqv", a, b] => do
       .ok (st, sexpOfBool (Ty.eqv (← tyOf a) (← tyOf b)))
   | .list [.atom "tdToDict", t] => do
